@@ -115,7 +115,7 @@ LoadVerdictS(regs, descs, ok, tree, ntree) ==
 -----------------------------------------------------------------------------
 (* D: want = set of [path, cls, cfg] registered at the target path; ran = sequence
    of [cls, cfgok]; exit = process status; ret = what the command returned.    *)
-UsageClasses == {"unknown_leaf", "unknown_group", "unknown_mid", "prefix", "missing_required",
+UsageClasses == {"unknown_leaf", "unknown_group", "prefix", "missing_required",
                  "foreign_option", "no_args"}
 HelpClasses  == {"help", "help_group"}
 ArgvClasses  == UsageClasses \cup HelpClasses \cup {"valid", "top_then_path"}
